@@ -79,21 +79,10 @@ theorem getSecretOrNone_good {A : Nat → Prop} {c : Chan} (h : HI A c) (n : Nat
 
 theorem release_secret {c : Chan} {n k : Nat} (hk : (release c n).secret = some k) :
     k + 2 ≤ c.next ∧ k + 1 = n := by
-  unfold release at hk
-  split at hk
-  · simp at hk
-  · split at hk
-    · simp at hk
-    · split at hk
-      · unfold getSecret at hk
-        split at hk
-        · simp at hk
-        · split at hk
-          · simp at hk
-          · split at hk
-            · simp at hk
-            · simp at hk; omega
-      · simp at hk
+  unfold release getSecret at hk
+  repeat' split at hk
+  all_goals simp at hk
+  omega
 
 theorem release_validated (c : Chan) (n : Nat) : (release c n).validated = none := by
   unfold release getSecret
@@ -132,29 +121,31 @@ theorem revoke_good {A : Nat → Prop} {c : Chan} (h : HI A c) (n : Nat) : Good 
       · exact good_fail h _
       · rename_i info hinfo
         have hacc : A c.next := h.2 (by simp [hinfo])
-        dsimp only
         split
-        · refine ⟨?_, ?_⟩
-          · simp only [release_validated]
-            refine ⟨fun m hm => ?_, fun hx => by simp at hx⟩
-            simp at hm
-            by_cases hm' : m < c.next
-            · exact Or.inl (h.1 m hm')
-            · have : m = c.next := by omega
-              subst this; exact Or.inl hacc
-          · intro k hk
-            have := release_secret hk
-            simp at this
-            have hk1 : k + 1 = c.next := by omega
-            rw [hk1]; exact Or.inl hacc
-        · refine ⟨?_, ?_⟩
-          · simp only [release_validated]
-            exact ⟨fun m hm => Or.inl (h.1 m hm), fun hx => by simp at hx⟩
-          · intro k hk
-            have := release_secret hk
-            simp at this
-            have hk1 : k + 1 = c.next := by omega
-            rw [hk1]; exact Or.inl hacc
+        · exact ⟨⟨fun m hm => Or.inl (h.1 m hm), fun hx => by simp at hx⟩, by intro k hk; simp at hk⟩
+        · dsimp only
+          split
+          · refine ⟨?_, ?_⟩
+            · simp only [release_validated]
+              refine ⟨fun m hm => ?_, fun hx => by simp at hx⟩
+              simp at hm
+              by_cases hm' : m < c.next
+              · exact Or.inl (h.1 m hm')
+              · have : m = c.next := by omega
+                subst this; exact Or.inl hacc
+            · intro k hk
+              have := release_secret hk
+              simp at this
+              have hk1 : k + 1 = c.next := by omega
+              rw [hk1]; exact Or.inl hacc
+          · refine ⟨?_, ?_⟩
+            · simp only [release_validated]
+              exact ⟨fun m hm => Or.inl (h.1 m hm), fun hx => by simp at hx⟩
+            · intro k hk
+              have := release_secret hk
+              simp at this
+              have hk1 : k + 1 = c.next := by omega
+              rw [hk1]; exact Or.inl hacc
 
 theorem activate_good {A : Nat → Prop} {c : Chan} (h : HI A c) : Good A (activate c) := by
   unfold activate
